@@ -350,6 +350,7 @@ int main(void)
     h_init();
     while (h_getline()) {
         int n = h_split(toks, 1 << 16); const char *op = toks[0];
+        if (n >= (1 << 16) - 1) { printf("too-many-tokens\n"); continue; }   /* never run a truncated tree */
         if (!strcmp(op, "fresh") && n >= 2) { new_builder(atoi(toks[1])); elog_len = 0; if (elog) elog[0] = 0; printf("ok\n"); continue; }
         if (!strcmp(op, "alloc") && n >= 4) {   /* flatcc_builder_default_alloc growth policy: alloc <hint> <len0> <r1,r2,..> */
             flatcc_iovec_t b; char *p = toks[3]; int hint = atoi(toks[1]); size_t l0 = (size_t)atol(toks[2]);
